@@ -745,7 +745,10 @@ impl Check for C15 {
          the simulator: failing host stub, missing native, missing variable, wrongly typed operand, non-function callee, and - \
          placed from what a `mark` stub reports just before the site - a failing allocation, a budget expiring on the site's \
          instruction, a value stack / call stack of exactly insufficient size; plus planted compile errors (empty variable \
-         name, unresolvable call target). Non-trivial = the provoked error landed on the site; distinct = distinct spec hash."
+         name, unresolvable call target, a ForEach with an empty loop-variable name). In front of the interesting card sit 0-3 \
+         cards that are assignments, comments, empty composites or loops / ifs with comment bodies. The budget is also swept over \
+         the whole run: wherever it expires every trace entry must resolve to a card (or trace[0] to the function epilogue) and \
+         never to a Comment card. Non-trivial = the provoked error landed on the site; distinct = distinct spec hash."
             .to_string()
     }
     fn cases(&self, tier: Tier) -> u64 {
